@@ -426,7 +426,25 @@ func TestVerifUtf8Obligations(t *testing.T) {
 			nbad := 1
 			expectRepairable := true
 			var reference, reference2 proto.Message // one U+FFFD per run / per byte
-			if ob.Kind == "path" {
+			if ob.Kind == "valid" {
+				// valid text (non-ASCII) at the failure message, valid wrappers above it: nothing to repair
+				path := ob.Path
+				if ob.Deep {
+					path = append([]string{}, ob.Path[:len(ob.Path)-1]...)
+					for i := 1; i < vu8SupportedDepth; i++ {
+						path = append(path, "cause")
+					}
+					path = append(path, "message")
+				}
+				vu8Wrap = true
+				defer func() { vu8Wrap = false }()
+				if err := vu8Build(msg.ProtoReflect(), path, "gültig ✓ 有効"); err != nil {
+					rec["err"] = "build: " + err.Error()
+					return
+				}
+				reference = proto.Clone(msg)
+				reference2 = reference
+			} else if ob.Kind == "path" {
 				path := ob.Path
 				if ob.Deep {
 					path = append([]string{}, ob.Path[:len(ob.Path)-1]...)
@@ -535,7 +553,7 @@ func TestVerifUtf8Obligations(t *testing.T) {
 				rec["err"] = "build: marshal: " + err.Error()
 				return
 			}
-			if ob.Kind == "path" || ob.Class.Fail > 0 || ob.Class.Other {
+			if ob.Kind != "valid" && (ob.Kind == "path" || ob.Class.Fail > 0 || ob.Class.Other) {
 				n := bytes.Count(wire, []byte("@#@#"))
 				if n < 1 {
 					rec["err"] = "build: placeholder not found"
